@@ -1,4 +1,4 @@
-From TN Require Export Harness.HBase Model.Arith.
+From TN Require Export Harness.HBase Sem.Fast Model.Arith.
 From Coq Require Import QArith.
 
 Section H.
@@ -13,7 +13,7 @@ Definition check (c : case) : bool :=
   match interp (fun n => sem (nth n (c_env c) [])) (c_expr c) with
   | Some cs =>
       c_ok c && shape_eqb (sshape cs) (c_shape c) &&
-      list_cmp cmp (dense_of (eval cs) (sshape cs)) (c_dense c)
+      list_cmp cmp (dense_of (eval_l cs) (sshape cs)) (c_dense c)
   | None => negb (c_ok c)
   end.
 End H.
